@@ -22,6 +22,7 @@ func c13(c *Ctx) {
 	a := c.processor()
 	p, R := a.p, c.R
 	R.Trust("go/types + go/ssa", "crypto.Ecrecover fails unless the signature is 65 bytes", "proto.Marshal of a well-formed generated message does not fail", "binary.Write of a fixed-size value into a bytes.Buffer does not fail", "senders on the processor's input channels send non-nil values (checked for repository senders of guardian sets)")
+	loopVarRule(c, p, "C13.loopvar", pkgProcessor)
 	R.Assumption("panics inside third-party libraries, allocation failure and blocking (not a crash) are not decided")
 
 	reach := reachableFuncs(p, a.Run)
